@@ -95,6 +95,8 @@ pub struct Node {
     pub last_dump: Vec<String>,
 }
 
+thread_local! { pub static HELD: std::cell::RefCell<std::collections::BTreeSet<usize>> = std::cell::RefCell::new(std::collections::BTreeSet::new()); }
+
 pub struct World { pub node: Option<Node>, pub counter: usize, pub base: String }
 
 fn role_of(s: &str) -> ClusterRole {
@@ -383,6 +385,8 @@ impl Node {
         let mut out = vec![];
         let sids: Vec<usize> = self.sessions.keys().cloned().collect();
         for sid in sids {
+            // a session on HOLD is a client that does not read: its queue is left to fill up until RELEASE
+            if HELD.with(|h| h.borrow().contains(&sid)) { continue; }
             let msgs = drain(&mut self.sessions.get_mut(&sid).unwrap().rx);
             for m in msgs {
                 if m.starts_with("resolve ") { self.notices.entry(sid).or_default().push(m.clone()); }
@@ -477,6 +481,7 @@ impl World {
     }
 
     fn reset(&mut self, role: &str) {
+        HELD.with(|h| h.borrow_mut().clear());
         if let Some(n) = self.node.take() { let _ = std::fs::remove_dir_all(&n.dir); }
         self.counter += 1;
         let dir = format!("{}/c{}-{}", self.base, std::process::id(), self.counter);
@@ -524,6 +529,14 @@ impl World {
         // several nodes share the process: every operation runs against its own node's data directory
         nundb::verif::set_data_dir(Some(n.dir.clone()));
         match cmd {
+            "HOLD" | "RELEASE" => {
+                // HOLD <sid>: from now on nothing is read from the session's queue (a slow subscriber); RELEASE <sid>: everything queued meanwhile
+                let sid: usize = match a1.parse() { Ok(s) => s, Err(_) => return vec!["E bad-op".into()] };
+                if cmd == "HOLD" { HELD.with(|h| h.borrow_mut().insert(sid)); } else { HELD.with(|h| h.borrow_mut().remove(&sid)); }
+                let mut out = n.drain_all(None);
+                out.extend(n.dump_delta());
+                out
+            }
             "SESS" => {
                 let sid: usize = match a1.parse() { Ok(s) => s, Err(_) => return vec!["E bad-op".into()] };
                 let (client, rx) = Client::new_empty_and_receiver();
